@@ -235,6 +235,7 @@ type dcall struct {
 	Keys    [][]string `json:"keys"`
 	Resp    *dresp     `json:"resp,omitempty"`
 	Nested  *dcall     `json:"nested,omitempty"`
+	ViaURL  bool       `json:"viaURL,omitempty"`
 }
 
 type dresp struct {
@@ -243,17 +244,18 @@ type dresp struct {
 }
 
 type dres struct {
-	Outcome  string   `json:"outcome"`
-	Status   int      `json:"status"`
-	Handler  bool     `json:"handler"`
-	HArgs    []M      `json:"hargs"`
-	HTypes   []string `json:"htypes"`
-	MwSeen   bool     `json:"mwSeen"`
-	MwBody   M        `json:"mwBody"`
-	MwParams []M      `json:"mwParams"`
-	RType    string   `json:"rtype"`
-	RVal     M        `json:"rval"`
-	Err      string   `json:"err"`
+	Outcome    string   `json:"outcome"`
+	Status     int      `json:"status"`
+	Handler    bool     `json:"handler"`
+	HArgs      []M      `json:"hargs"`
+	HTypes     []string `json:"htypes"`
+	URLChanged bool     `json:"urlChanged"`
+	MwSeen     bool     `json:"mwSeen"`
+	MwBody     M        `json:"mwBody"`
+	MwParams   []M      `json:"mwParams"`
+	RType      string   `json:"rtype"`
+	RVal       M        `json:"rval"`
+	Err        string   `json:"err"`
 }
 
 // meta says how one driver call becomes an observation line.
@@ -506,7 +508,7 @@ func Prepare(r *core.Run, extra, race bool) (*Prepared, error) {
 	if err != nil {
 		return nil, err
 	}
-	if _, err := mod.Generate("api", doc, gencode.ClientServer()); err != nil {
+	if _, err := mod.Generate("api", doc, gencode.ClientServerOptions()); err != nil {
 		return nil, fmt.Errorf("%w: the exchange document is refused: %v", tlc.ErrInfra, err)
 	}
 	surf, err := gencode.InspectDir(filepath.Join(mod.Dir, "api"), "api")
@@ -692,6 +694,20 @@ func Prepare(r *core.Run, extra, race bool) (*Prepared, error) {
 			}
 		}
 	}
+	// ---- per-request options: the same webhook and body calls with WithServerURL(<one URL value
+	// shared by every such call of the process>); what is delivered must not change and the URL
+	// handed over must not be written to
+	n0 := len(calls)
+	for i := 0; i < n0; i++ {
+		if mk := metas[i].kind; (mk == "hook" || (mk == "body" && calls[i].Method == "Body" && calls[i].Nested == nil)) && !calls[i].ViaURL {
+			c := calls[i]
+			c.ViaURL = true
+			m := metas[i]
+			m.descr += " (WithServerURL, URL value shared between calls)"
+			calls = append(calls, c)
+			metas = append(metas, m)
+		}
+	}
 	return &Prepared{Bin: bin, Calls: calls, metas: metas, ops: ops}, nil
 }
 
@@ -739,6 +755,10 @@ func Check(r *core.Run) error {
 	variantOf := map[string]string{"*api.R200Headers": "ok200", "*api.RespCreated": "created201", "*api.E4StatusCodeWithHeaders": "pat4XX", "*api.EDStatusCodeWithHeaders": "default"}
 	for i, mt := range metas {
 		res := results[i]
+		if res.URLChanged {
+			// whatever else happened: the call wrote to the URL value the caller handed over
+			res.Outcome = "shared_url_written"
+		}
 		var line M
 		switch mt.kind {
 		case "param":
@@ -1051,7 +1071,7 @@ func show(v M) string {
 // generated types by name.
 func glue(s *gencode.Surface) string {
 	var b strings.Builder
-	b.WriteString("package main\n\nimport (\n\t\"context\"\n\t\"net/http\"\n\t\"reflect\"\n\n\t\"github.com/ogen-go/ogen/middleware\"\n\n\tapi \"vmod/api\"\n)\n\nvar _ context.Context\n\ntype handler struct{}\n\n")
+	b.WriteString("package main\n\nimport (\n\t\"context\"\n\t\"net/http\"\n\t\"net/url\"\n\t\"reflect\"\n\n\t\"github.com/ogen-go/ogen/middleware\"\n\n\tapi \"vmod/api\"\n)\n\nvar _ context.Context\nvar _ *url.URL\n\ntype handler struct{}\n\n")
 	for _, m := range append(append([]gencode.Method{}, s.HandlerMethods...), s.WebhookMethods...) {
 		args := []string{}
 		for i := range m.Types {
@@ -1076,6 +1096,9 @@ func glue(s *gencode.Surface) string {
 	if len(s.WebhookMethods) > 0 {
 		b.WriteString("\tmkWebhook = func(mw middleware.Middleware) (func(string) http.Handler, error) {\n\t\ts, err := api.NewWebhookServer(handler{}, api.WithMiddleware(passThrough, mw, passThrough))\n\t\tif err != nil {\n\t\t\treturn nil, err\n\t\t}\n\t\treturn s.Handler, nil\n\t}\n")
 		b.WriteString("\tmkWebhookClient = func(c *http.Client) (any, error) { return api.NewWebhookClient(api.WithClient(c)) }\n")
+	}
+	if s.HasRequestOptions {
+		b.WriteString("\tmkServerURLOption = func(u *url.URL) any { return api.WithServerURL(u) }\n")
 	}
 	b.WriteString("}\n")
 	b.WriteString("\n// passThrough: the recording middleware sits between two others, so the generated chain\n// (middleware.ChainMiddlewares) is exercised with more than one element\n")
